@@ -350,6 +350,37 @@ func genPipes(c *Ctx, tbl *d.SpsTable) {
 				}
 				tag = "burst"
 			}
+			if b.c.Skip > 0 && k%5 == 1 {
+				// the start-up phase of a stream without SDP parameter sets: damaged parameter sets
+				// (truncated real ones, parameter-set-typed garbage of plausible length) before / between
+				// / right after the sender's first SPS / PPS
+				var sps, first []byte
+				if b.c.Codec == "h265" {
+					sps, first = d.H265Sps[r.Intn(len(d.H265Sps))], []byte{0x40, 0x42, 0x44}
+				} else {
+					sps, first = d.H264Sps[r.Intn(len(d.H264Sps))], []byte{0x67, 0x68, 0x27, 0x28}
+				}
+				bad = nil
+				for q := 1 + r.Intn(2); q > 0; q-- {
+					var pl []byte
+					switch x := r.Intn(10); {
+					case x < 5:
+						pl = append([]byte{}, sps[:4+r.Intn(len(sps)-4)]...)
+					case x < 8:
+						pl = append([]byte{first[r.Intn(len(first))]}, r.Bytes(3+r.Intn(10))...)
+					default:
+						pl = append([]byte{}, sps...)
+						pl[2+r.Intn(len(pl)-2)] ^= byte(1 + r.Intn(255))
+					}
+					bad = append(bad, mk(pl, false))
+				}
+				pos := r.Intn(b.c.Skip + 1)
+				if b.c.Skip > 1 && r.Bool() {
+					pos = 1 // right after the sender's first parameter set: the damaged one displaces it or fills a free slot
+				}
+				vs = append(vs, &pcase{c: variant(b.c, bad, pos), asc: ascPool[0], badTag: "damaged-parameter-set-at-start-up"})
+				continue
+			}
 			if k%3 == 2 {
 				// corruption IN PLACE: a packet of the stream itself (same sequence number, timestamp,
 				// marker — e.g. the middle fragment of a fragmented unit, one packet of an aggregation)
@@ -571,6 +602,7 @@ func runPipeBatch(c *Ctx, tbl *d.SpsTable, ps []*pcase) {
 			continue
 		}
 		comparePipe(c, p)
+		checkSeqHeader(c, p)
 		ok, ko := tbl.Split(p.c.Codec, cands[i])
 		na := ""
 		if p.c.HasTag("inband-ps") || !p.c.WK {
@@ -616,6 +648,70 @@ func runPipeBatch(c *Ctx, tbl *d.SpsTable, ps []*pcase) {
 			}
 			c.Sample(fmt.Sprintf("%s → impl %d frames %d tags %d ts-frames alive=%v/%v/%v", l, len(p.impl.Frames), len(p.impl.Tags), len(p.impl.Tsf), p.impl.Alive, p.impl.FAlive, p.impl.TAlive))
 		}
+	}
+}
+
+// checkSeqHeader: FLV output a player can decode needs, in front of the first video tag, a
+// sequence header, and (H.264: the harness parses the AVCDecoderConfigurationRecord) the SPS and
+// PPS in it must be parameter sets the SENDER sent — the SDP's, or a type-7 / type-8 unit of a
+// well-formed packet — not the bytes of a malformed packet: a header built from a damaged
+// parameter set makes every later tag of the stream useless.
+func checkSeqHeader(c *Ctx, p *pcase) {
+	first := -1
+	for i, t := range p.impl.Tags {
+		if strings.HasPrefix(t, "v.") {
+			first = i
+			break
+		}
+	}
+	if first < 0 {
+		return
+	}
+	var hdr *d.SeqHdr
+	seen := false
+	for i, t := range p.impl.Tags[:first] {
+		if strings.HasPrefix(t, "V") {
+			seen = true
+			for k := range p.impl.Seq {
+				if p.impl.Seq[k].At == i {
+					hdr = &p.impl.Seq[k]
+				}
+			}
+		}
+	}
+	if !seen {
+		c.Find(Finding{Kind: "oracle", Class: p.c.Codec + ":flv-video-tag-before-sequence-header-after-" + badName(p), Case: p.line, Impl: clip(strings.Join(p.impl.Tags, ",")), Spec: "a sequence header precedes the first video tag"})
+		return
+	}
+	if p.c.Codec != "h264" || hdr == nil {
+		if p.c.Codec == "h264" && hdr != nil && hdr.Sps == nil {
+			c.Find(Finding{Kind: "oracle", Class: "h264:flv-sequence-header-unparsable-after-" + badName(p), Case: p.line, Impl: clip(strings.Join(p.impl.Tags, ",")), Spec: "the AVC sequence header carries a parsable AVCDecoderConfigurationRecord"})
+		}
+		return
+	}
+	sent := func(typ byte, sdp []byte) map[string]bool {
+		m := map[string]bool{}
+		if len(sdp) > 0 {
+			m[string(sdp)] = true
+		}
+		for _, e := range p.c.Elems {
+			if e.Kind == 'S' || e.Kind == 'A' || e.Kind == 'F' {
+				for _, n := range e.Nals {
+					if len(n) > 0 && n[0]&0x1f == typ {
+						m[string(n)] = true
+					}
+				}
+			}
+		}
+		return m
+	}
+	// an SPS the real decoder accepts is, for any receiver, a parameter set like the sender's: only an
+	// UNDECODABLE one in the header is a containment failure
+	if !sent(7, p.c.Sps)[string(hdr.Sps)] && !d.SpsDecodes("h264", hdr.Sps) {
+		c.Find(Finding{Kind: "oracle", Class: "h264:flv-sequence-header-sps-from-malformed-packet", Case: p.line, Impl: clip(strings.Join(p.impl.Tags, ",")), Spec: "the SPS of the AVC sequence header in front of the video tags is a parameter set the sender sent (SDP or a well-formed packet) or at least one the decoder accepts", Model: clip(p.mtags), Detail: "after-" + badName(p)})
+	}
+	if !sent(8, p.c.Pps)[string(hdr.Pps)] {
+		c.Find(Finding{Kind: "oracle", Class: "h264:flv-sequence-header-pps-from-malformed-packet", Case: p.line, Impl: clip(strings.Join(p.impl.Tags, ",")), Spec: "the PPS of the AVC sequence header in front of the video tags is a parameter set the sender sent (SDP or a well-formed packet)", Model: clip(p.mtags), Detail: "after-" + badName(p)})
 	}
 }
 
